@@ -197,7 +197,13 @@ def jobs(chk, tier):
     sd = C.seed()
     rnd = C.rng('c17')
     frac = 0.1 if tier == 'quick' else 0.3
+    # every record costs about 15 runs of main(); the exhaustive 3-object configuration of the
+    # thorough tier is replayed on a seeded 4 % sample (TLC still checks the invariants on all of it)
+    keep = C.rng('c17-keep')
     for r, g, cfg in T.records(chk, tier, INVS):
+        if 't3' in cfg or 'free3' in cfg:
+            if keep.random() > 0.04:
+                continue
         if r.get('reject') or any(o.get('kind') == 'A' for o in r['input']):
             continue            # (curve objects are addressed like wires; main() orders arcs before wires)
         yield (r, g, 'solve' if rnd.random() < frac else 'nosolve', sd)
